@@ -27,6 +27,27 @@ static void dump(const char* nm, PhaseSpace& ps)
     for (unsigned b = 0; b < nb; b++) pf(ps.getBunchLength()[b]);
     printf("\n%s.rms1", nm);
     for (unsigned b = 0; b < nb; b++) pf(ps.getEnergySpread()[b]);
+    // the same quantities through the RAW-MEMORY view the results-file writer uses (HDF5File::append hands
+    // <accessor>.origin() to the file layer, which takes nb - or nb*n - CONTIGUOUS values from there):
+    // strengthening st3weak, seeds C09-J / C10-H (an accessor that returns a strided view)
+    for (unsigned a = 0; a < 2; a++) for (unsigned m = 0; m < 2; m++) {
+        auto mv = ps.getMoment(a, m);
+        printf("\n%s.w%u%u", nm, a, m);
+        for (unsigned b = 0; b < nb; b++) pf(mv.origin()[b]);
+    }
+    {
+        auto r0 = ps.getBunchLength();
+        printf("\n%s.wr0", nm);
+        for (unsigned b = 0; b < nb; b++) pf(r0.origin()[b]);
+        auto r1 = ps.getEnergySpread();
+        printf("\n%s.wr1", nm);
+        for (unsigned b = 0; b < nb; b++) pf(r1.origin()[b]);
+    }
+    for (unsigned a = 0; a < 2; a++) {
+        auto pv = ps.getProjection(a);
+        printf("\n%s.wp%c", nm, a ? 'y' : 'x');
+        for (size_t i = 0; i < (size_t)nb * n; i++) pf(pv.origin()[i]);
+    }
     printf("\n");
 }
 
